@@ -57,9 +57,18 @@ type jop struct {
 	Kind    string `json:"kind,omitempty"`    // generator label (histogram only)
 }
 
+type jchain struct {
+	Addr int    `json:"addr"`
+	Val  string `json:"val"`
+}
+
 type jcase struct {
-	Kind string `json:"kind"` // svc | store
+	Kind string `json:"kind"` // svc | store | svcr
 	Ops  []jop  `json:"ops"`
+	// svcr: after Ops the process restarts: the chain reports Chain (TransAmount(issuer, self)) and lists Lists, Init(), then Ops2
+	Chain []jchain `json:"chain,omitempty"`
+	Lists []int    `json:"lists,omitempty"`
+	Ops2  []jop    `json:"ops2,omitempty"`
 }
 
 func bigOf(s string) *big.Int {
@@ -169,105 +178,160 @@ func runSvc(jc jcase) {
 	var coqOps []string
 	nontrivial := false
 	accepted := 0
-	for i, o := range jc.Ops {
-		switch o.Op {
-		case "hs":
-			err := e.Svc.Handshake(peers[o.Peer], addrs[o.Addr], chequePkg.SignedCheque{})
-			cl := uint64(0)
-			if err != nil {
-				cl = 6
-			}
-			coqOps = append(coqOps, hx.CoqPair(hx.CoqApp("OHandshake", enc.Overlay(peers[o.Peer]), enc.Addr(addrs[o.Addr])), hx.CoqN(cl)))
-			run.Hist(fmt.Sprintf("hs.class=%d", cl))
-		case "rx":
-			sc, validSig := build(o)
-			coqsc := coqSC(enc, sc) // before the call: the observation table entry of the real recovery function
-			reg, known := e.Book.Beneficiary(peers[o.Peer])
-			payout := new(big.Int).Set(sc.CumulativePayout)
-			err := e.Svc.ReceiveCheque(ctx, peers[o.Peer], sc)
-			cl := classOf(err)
-			coqOps = append(coqOps, hx.CoqPair(hx.CoqApp("OReceive", enc.Overlay(peers[o.Peer]), coqsc), hx.CoqN(cl)))
-			run.Hist("rx." + o.Kind)
-			run.Hist(fmt.Sprintf("rx.class=%d", cl))
-			// ---- oracle 1: accepted iff the four conditions of the property
-			cRcpt := sc.Recipient == e.Self
-			cInc := payout.Cmp(getMax(sc.Beneficiary)) > 0
-			cPeer := known && reg == sc.Beneficiary
-			want := cRcpt && validSig && cInc && cPeer
-			run.OracleChecked(1)
-			if (err == nil) != want {
-				sig := "reject:valid-cheque"
-				if err == nil {
-					switch {
-					case !known:
-						sig = "accept:unregistered-peer"
-					case !cPeer:
-						sig = "accept:foreign-issuer"
-					case !cRcpt:
-						sig = "accept:wrong-recipient"
-					case !validSig:
-						sig = "accept:bad-signature"
-					default:
-						sig = "accept:not-increasing"
-					}
+	var coqOps2 []string
+	restored := false
+	touched := map[common.Address]bool{} // after a restart: issuers with an accepted cheque since
+	cur := &coqOps
+	doOps := func(ops []jop) {
+		for i, o := range ops {
+			switch o.Op {
+			case "hs":
+				err := e.Svc.Handshake(peers[o.Peer], addrs[o.Addr], chequePkg.SignedCheque{})
+				cl := uint64(0)
+				if err != nil {
+					cl = 6
 				}
-				run.Violate(hx.Violation{Sig: sig, Detail: fmt.Sprintf("op %d (%s): ReceiveCheque err=%v; recipient-ok=%v valid-signature=%v increasing=%v from-registered-peer-of-issuer=%v",
-					i, o.Kind, err, cRcpt, validSig, cInc, cPeer), Case: jc, Impl: err == nil, Want: want})
-			}
-			if err == nil {
-				maxAcc[sc.Beneficiary] = payout
-				accepted++
-				if accepted >= 2 {
-					nontrivial = true
-				}
-			}
-		}
-		// ---- oracle 2: after every op, per issuer: credited record == highest accepted payout == stored last cheque
-		cred := map[common.Address]*big.Int{}
-		for _, d := range e.Svc.VerifDump() {
-			cred[common.HexToAddress(d.Key)] = d.Vals[4]
-		}
-		for _, a := range addrs {
-			run.OracleChecked(2)
-			c := cred[a]
-			if c == nil {
-				c = big.NewInt(0)
-			}
-			if c.Cmp(getMax(a)) != 0 {
-				run.Violate(hx.Violation{Sig: "credit:record!=max-accepted", Detail: fmt.Sprintf("after op %d: credited record of %s = %v, highest accepted payout = %v", i, a.Hex(), c, getMax(a)),
-					Case: jc, Impl: c.String(), Want: getMax(a).String()})
-			}
-			last, lerr := e.CS.LastReceivedCheque(a)
-			if lerr != nil && lerr != chequePkg.ErrNoCheque {
-				panic(lerr)
-			}
-			if last.CumulativePayout.Cmp(getMax(a)) != 0 {
-				run.Violate(hx.Violation{Sig: "credit:last-cheque!=max-accepted", Detail: fmt.Sprintf("after op %d: stored last cheque of %s = %v, highest accepted payout = %v", i, a.Hex(), last.CumulativePayout, getMax(a)),
-					Case: jc, Impl: last.CumulativePayout.String(), Want: getMax(a).String()})
-			}
-		}
-		// public API view for registered peers
-		for _, p := range peers {
-			if a, known := e.Book.Beneficiary(p); known {
-				lc, err := e.Svc.LastReceivedCheque(p)
-				if err == nil || err == chequePkg.ErrNoCheque {
-					if lc.CumulativePayout.Cmp(getMax(a)) != 0 {
-						run.Violate(hx.Violation{Sig: "credit:last-cheque!=max-accepted", Detail: fmt.Sprintf("after op %d: Service.LastReceivedCheque of a registered peer = %v, want %v", i, lc.CumulativePayout, getMax(a)), Case: jc})
-					}
-				}
-			}
-		}
-		tcs, _ := e.Svc.TrafficCheques()
-		for _, tc := range tcs {
-			if a, known := e.Book.Beneficiary(tc.Peer); known {
+				*cur = append(*cur, hx.CoqPair(hx.CoqApp("OHandshake", enc.Overlay(peers[o.Peer]), enc.Addr(addrs[o.Addr])), hx.CoqN(cl)))
+				run.Hist(fmt.Sprintf("hs.class=%d", cl))
+			case "rx":
+				sc, validSig := build(o)
+				coqsc := coqSC(enc, sc) // before the call: the observation table entry of the real recovery function
+				reg, known := e.Book.Beneficiary(peers[o.Peer])
+				payout := new(big.Int).Set(sc.CumulativePayout)
+				err := e.Svc.ReceiveCheque(ctx, peers[o.Peer], sc)
+				cl := classOf(err)
+				*cur = append(*cur, hx.CoqPair(hx.CoqApp("OReceive", enc.Overlay(peers[o.Peer]), coqsc), hx.CoqN(cl)))
+				run.Hist("rx." + o.Kind)
+				run.Hist(fmt.Sprintf("rx.class=%d", cl))
+				// ---- oracle 1: accepted iff the four conditions of the property
+				cRcpt := sc.Recipient == e.Self
+				cInc := payout.Cmp(getMax(sc.Beneficiary)) > 0
+				cPeer := known && reg == sc.Beneficiary
+				want := cRcpt && validSig && cInc && cPeer
 				run.OracleChecked(1)
-				if tc.ReceivedSettlements.Cmp(getMax(a)) != 0 {
-					run.Violate(hx.Violation{Sig: "credit:record!=max-accepted", Detail: fmt.Sprintf("after op %d: TrafficCheques.ReceivedSettlements = %v, want %v", i, tc.ReceivedSettlements, getMax(a)), Case: jc})
+				if (err == nil) != want {
+					sig := "reject:valid-cheque"
+					if err == nil {
+						switch {
+						case !known:
+							sig = "accept:unregistered-peer"
+						case !cPeer:
+							sig = "accept:foreign-issuer"
+						case !cRcpt:
+							sig = "accept:wrong-recipient"
+						case !validSig:
+							sig = "accept:bad-signature"
+						default:
+							sig = "accept:not-increasing"
+						}
+					}
+					run.Violate(hx.Violation{Sig: sig, Detail: fmt.Sprintf("op %d (%s): ReceiveCheque err=%v; recipient-ok=%v valid-signature=%v increasing=%v from-registered-peer-of-issuer=%v",
+						i, o.Kind, err, cRcpt, validSig, cInc, cPeer), Case: jc, Impl: err == nil, Want: want})
+				}
+				if err == nil {
+					maxAcc[sc.Beneficiary] = payout
+					if restored {
+						touched[sc.Beneficiary] = true
+					}
+					accepted++
+					if accepted >= 2 {
+						nontrivial = true
+					}
+				}
+			}
+			// ---- oracle 2: after every op, per issuer: credited record == highest accepted payout == stored last cheque
+			cred := map[common.Address]*big.Int{}
+			for _, d := range e.Svc.VerifDump() {
+				cred[common.HexToAddress(d.Key)] = d.Vals[4]
+			}
+			for _, a := range addrs {
+				run.OracleChecked(2)
+				c := cred[a]
+				if c == nil {
+					c = big.NewInt(0)
+				}
+				// after a restart the record of an issuer starts as max(chain, stored cheque); from its first accepted cheque
+				// on it must be that cheque's cumulative payout = the highest accepted
+				if restored && !touched[a] {
+					// nothing accepted since the restart: not constrained here
+				} else if c.Cmp(getMax(a)) != 0 {
+					sig := "credit:record!=max-accepted"
+					if restored {
+						sig = "credit:record!=cheque-payout-after-restore"
+					}
+					run.Violate(hx.Violation{Sig: sig, Detail: fmt.Sprintf("after op %d: credited record of %s = %v, highest accepted payout = %v", i, a.Hex(), c, getMax(a)),
+						Case: jc, Impl: c.String(), Want: getMax(a).String()})
+				}
+				last, lerr := e.CS.LastReceivedCheque(a)
+				if lerr != nil && lerr != chequePkg.ErrNoCheque {
+					panic(lerr)
+				}
+				if last.CumulativePayout.Cmp(getMax(a)) != 0 {
+					run.Violate(hx.Violation{Sig: "credit:last-cheque!=max-accepted", Detail: fmt.Sprintf("after op %d: stored last cheque of %s = %v, highest accepted payout = %v", i, a.Hex(), last.CumulativePayout, getMax(a)),
+						Case: jc, Impl: last.CumulativePayout.String(), Want: getMax(a).String()})
+				}
+			}
+			// public API view for registered peers
+			for _, p := range peers {
+				if a, known := e.Book.Beneficiary(p); known {
+					lc, err := e.Svc.LastReceivedCheque(p)
+					if err == nil || err == chequePkg.ErrNoCheque {
+						if lc.CumulativePayout.Cmp(getMax(a)) != 0 {
+							run.Violate(hx.Violation{Sig: "credit:last-cheque!=max-accepted", Detail: fmt.Sprintf("after op %d: Service.LastReceivedCheque of a registered peer = %v, want %v", i, lc.CumulativePayout, getMax(a)), Case: jc})
+						}
+					}
+				}
+			}
+			tcs, _ := e.Svc.TrafficCheques()
+			for _, tc := range tcs {
+				if a, known := e.Book.Beneficiary(tc.Peer); known {
+					run.OracleChecked(1)
+					if restored && !touched[a] {
+						continue
+					}
+					if tc.ReceivedSettlements.Cmp(getMax(a)) != 0 {
+						run.Violate(hx.Violation{Sig: "credit:record!=max-accepted", Detail: fmt.Sprintf("after op %d: TrafficCheques.ReceivedSettlements = %v, want %v", i, tc.ReceivedSettlements, getMax(a)), Case: jc})
+					}
 				}
 			}
 		}
 	}
+	doOps(jc.Ops)
+	if jc.Kind == "svcr" {
+		// restart: the chain now reports what each issuer has been cashed for; new process, Init, address book reload
+		var coqChain, coqLists []string
+		e.Chain.Set(func() {
+			for _, c := range jc.Chain {
+				e.Chain.Trans[[2]common.Address{addrs[c.Addr], e.Self}] = bigOf(c.Val)
+				coqChain = append(coqChain, hx.CoqPair(enc.Addr(addrs[c.Addr]), pay.CoqZBig(bigOf(c.Val))))
+			}
+			e.Chain.Transferred = nil
+			for _, a := range jc.Lists {
+				e.Chain.Transferred = append(e.Chain.Transferred, addrs[a])
+				coqLists = append(coqLists, enc.Addr(addrs[a]))
+			}
+		})
+		e.Boot()
+		if err := e.Svc.Init(); err != nil {
+			panic(err)
+		}
+		restored, cur = true, &coqOps2
+		run.Hist("svcr.restart")
+		doOps(jc.Ops2)
+		dump, ok := finalDump(e, enc, jc)
+		_ = ok
+		term := hx.CoqApp("CSvcR", enc.Addr(e.Self), hx.CoqList(coqOps, "op * N"), hx.CoqList(coqChain, "addr * Z"), hx.CoqList(coqLists, "addr"),
+			hx.CoqList(coqOps2, "op * N"), hx.CoqList(dump, "addr * (option Z * bool * Z)"))
+		run.AddCase(term, jc, keyOf(jc), len(touched) > 0)
+		return
+	}
 	// ---- final dump for the correspondence
+	dump, _ := finalDump(e, enc, jc)
+	term := hx.CoqApp("CSvc", enc.Addr(e.Self), hx.CoqList(coqOps, "op * N"), hx.CoqList(dump, "addr * (option Z * bool * Z)"))
+	run.AddCase(term, jc, keyOf(jc), nontrivial)
+}
+
+func finalDump(e *pay.Env, enc *pay.Enc, jc jcase) ([]string, bool) {
 	dumpRecs := e.Svc.VerifDump()
 	recs := map[common.Address]*big.Int{}
 	for _, d := range dumpRecs {
@@ -291,8 +355,7 @@ func runSvc(jc jcase) {
 	if inUniverse != len(dumpRecs) {
 		run.Violate(hx.Violation{Sig: "record:for-address-never-registered", Detail: "a Traffic record exists for an address outside the universe of the run", Case: jc})
 	}
-	term := hx.CoqApp("CSvc", enc.Addr(e.Self), hx.CoqList(coqOps, "op * N"), hx.CoqList(dump, "addr * (option Z * bool * Z)"))
-	run.AddCase(term, jc, keyOf(jc), nontrivial)
+	return dump, true
 }
 
 // ---------------------------------------------------------------- store-only history
@@ -384,7 +447,8 @@ func runStore(jc jcase) {
 func keyOf(jc jcase) string {
 	var sb strings.Builder
 	sb.WriteString(jc.Kind)
-	for _, o := range jc.Ops {
+	fmt.Fprintf(&sb, "%v%v", jc.Chain, jc.Lists)
+	for _, o := range append(append([]jop{}, jc.Ops...), jc.Ops2...) {
 		fmt.Fprintf(&sb, "|%s,%d,%d,%d,%d,%s,%d,%d,%d,%s,%s", o.Op, o.Peer, o.Addr, o.Rcpt, o.Iss, o.Payout, o.Signer, o.SRcpt, o.SIss, o.SPayout, o.SigMode)
 	}
 	return sb.String()
@@ -393,12 +457,12 @@ func keyOf(jc jcase) string {
 // ---------------------------------------------------------------- generator
 
 type gen struct {
-	r      *hx.Rand
-	reg    map[int]int // peer index -> registered address index (reference bookkeeping of the generator only)
-	taken  map[int]bool
-	last   map[int]*big.Int // issuer index -> highest payout generated as valid so far
-	sent   []jop
-	store  bool
+	r     *hx.Rand
+	reg   map[int]int // peer index -> registered address index (reference bookkeeping of the generator only)
+	taken map[int]bool
+	last  map[int]*big.Int // issuer index -> highest payout generated as valid so far
+	sent  []jop
+	store bool
 }
 
 func (g *gen) delta() *big.Int {
@@ -589,6 +653,53 @@ func genSvc(r *hx.Rand, n int) jcase {
 	return jc
 }
 
+// genSvcR: registrations and some cheques, then a restart with chain totals above / equal to / below the stored
+// cheques (or with nothing stored), then cheque sequences (increasing, replay, lower, higher, defective)
+func genSvcR(r *hx.Rand, n int) jcase {
+	g := &gen{r: r, reg: map[int]int{}, taken: map[int]bool{}, last: map[int]*big.Int{}}
+	jc := jcase{Kind: "svcr"}
+	for p := 1; p <= 3; p++ {
+		if r.Chance(5, 6) {
+			g.reg[p], g.taken[p] = p, true
+			jc.Ops = append(jc.Ops, jop{Op: "hs", Peer: p, Addr: p})
+		}
+	}
+	for k := r.Intn(6); k > 0; k-- {
+		jc.Ops = append(jc.Ops, g.rx())
+	}
+	for a := 1; a <= 4; a++ {
+		st := g.lastOf(a)
+		var v *big.Int
+		switch r.Intn(6) {
+		case 0:
+			continue // the chain knows nothing about this issuer
+		case 1:
+			v = new(big.Int).Set(st)
+		case 2:
+			v = new(big.Int).Sub(st, big.NewInt(int64(1+r.Intn(20))))
+			if v.Sign() < 0 {
+				v = big.NewInt(0)
+			}
+		case 3:
+			v = new(big.Int).Add(st, big.NewInt(1))
+		default:
+			v = new(big.Int).Add(st, g.delta())
+		}
+		jc.Chain = append(jc.Chain, jchain{Addr: a, Val: v.String()})
+		if r.Chance(2, 3) {
+			jc.Lists = append(jc.Lists, a)
+		}
+	}
+	for len(jc.Ops2) < n {
+		if r.Chance(1, 12) {
+			jc.Ops2 = append(jc.Ops2, g.hs())
+		} else {
+			jc.Ops2 = append(jc.Ops2, g.rx())
+		}
+	}
+	return jc
+}
+
 func genStore(r *hx.Rand, n int) jcase {
 	g := &gen{r: r, reg: map[int]int{}, taken: map[int]bool{}, last: map[int]*big.Int{}, store: true}
 	jc := jcase{Kind: "store"}
@@ -607,13 +718,19 @@ func corpus() []jcase {
 			valid(1, 1, big.NewInt(10), "valid"), valid(2, 2, big.NewInt(50), "replay"), valid(2, 2, big.NewInt(60), "valid"), valid(2, 2, big.NewInt(55), "not-increasing")}},
 		{Kind: "svc", Ops: []jop{valid(3, 3, big.NewInt(9), "unregistered-peer"), {Op: "hs", Peer: 3, Addr: 3}, valid(3, 3, big.NewInt(9), "valid"), {Op: "hs", Peer: 4, Addr: 3}, {Op: "hs", Peer: 3, Addr: 4},
 			valid(3, 4, big.NewInt(9), "foreign-issuer"), valid(4, 3, big.NewInt(10), "unregistered-peer")}},
+		// seeded change C30-3: nothing stored, the chain says issuer 1 was cashed for 100, Init, then 150, 150, 120, 180
+		{Kind: "svcr", Ops: []jop{{Op: "hs", Peer: 1, Addr: 1}}, Chain: []jchain{{Addr: 1, Val: "100"}}, Lists: []int{1},
+			Ops2: []jop{valid(1, 1, big.NewInt(150), "valid"), valid(1, 1, big.NewInt(150), "replay"), valid(1, 1, big.NewInt(120), "not-increasing"), valid(1, 1, big.NewInt(180), "valid")}},
+		// stored 40, chain 100: a cheque of 60 is above the stored one and accepted; the record becomes 60
+		{Kind: "svcr", Ops: []jop{{Op: "hs", Peer: 1, Addr: 1}, valid(1, 1, big.NewInt(40), "valid")}, Chain: []jchain{{Addr: 1, Val: "100"}},
+			Ops2: []jop{valid(1, 1, big.NewInt(40), "replay"), valid(1, 1, big.NewInt(60), "valid"), valid(1, 1, big.NewInt(100), "valid")}},
 		{Kind: "store", Ops: []jop{valid(0, 1, big.NewInt(3), "valid"), valid(0, 1, big.NewInt(3), "replay"), valid(0, 1, big.NewInt(2), "not-increasing"), valid(0, 2, big.NewInt(1), "valid"), valid(0, 1, big.NewInt(8), "valid")}},
 	}
 }
 
 func main() {
 	run = hx.Start("C30", "Aurora.C30.Corr",
-		"concurrent deliveries (2-4 goroutines, same/increasing/decreasing/two-issuer/defective cheques) through the real service over a gated state store (the controller grants the store's reads before its writes), followed by sequential replays; and histories (6..24 ops) of registrations (Handshake with empty signature) and cheques delivered to the real traffic service, and store-only cheque sequences; cheques are valid / replayed / not increasing / negative / mis-addressed / wrongly signed (7 ways) / foreign-issuer / from unregistered peers / odd issuer, signed with real EIP-712 keys; addresses are encoded injectively as small numbers (universe index, others numbered from 100 in order of appearance); non-trivial = at least two cheques accepted; distinct by the full op list")
+		"concurrent deliveries (2-4 goroutines, same/increasing/decreasing/two-issuer/defective cheques) through the real service over a gated state store (the controller grants the store's reads before its writes), followed by sequential replays; histories restarted (Init) with chain totals above/equal/below the stored cheques before further cheques; and histories (6..24 ops) of registrations (Handshake with empty signature) and cheques delivered to the real traffic service, and store-only cheque sequences; cheques are valid / replayed / not increasing / negative / mis-addressed / wrongly signed (7 ways) / foreign-issuer / from unregistered peers / odd issuer, signed with real EIP-712 keys; addresses are encoded injectively as small numbers (universe index, others numbered from 100 in order of appearance); non-trivial = at least two cheques accepted; distinct by the full op list")
 	initUniverse()
 	if run.Replay != "" {
 		var jc jcase
@@ -647,7 +764,10 @@ func main() {
 	for i := 0; i < run.N(36, 400); i++ {
 		runConc(genConc(run.R.Fork(uint64(2000000 + i))))
 	}
-	nSvc, nStore := run.N(140, 1400), run.N(40, 300)
+	for i := 0; i < run.N(40, 500); i++ {
+		runSvc(genSvcR(run.R.Fork(uint64(3000000+i)), 3+run.R.Intn(10)))
+	}
+	nSvc, nStore := run.N(110, 1200), run.N(35, 300)
 	for i := 0; i < nSvc; i++ {
 		runSvc(genSvc(run.R.Fork(uint64(i)), 6+run.R.Intn(19)))
 	}
